@@ -7,15 +7,25 @@ PROP = 'C07'
 PROPS_MODULES = ['LA.Props.C07']
 GEN = ['ApiStates']
 ASSUMPTIONS = [
-    'malloc never fails (allocation-failure paths are not driven)',
-    'calls are the public calls of the handle\'s own kind; a dead (freed) handle is never used again',
+    'malloc never fails (allocation-failure paths are not driven; the model has them as outcome alt=9)',
+    'calls are the public calls of the handle\'s own kind; a freed handle is never used again (the pointer is dead)',
     'lower layers (format readers/writers, filters, client callbacks, the file system) are inputs of the model: '
-    'every status they can return is quantified over; what they release is taken from the ledger assumptions in '
-    'LA/Model/Handle.lean',
+    'every status they can return is quantified over (Outcome); assumed of them: a filter\'s close releases what '
+    'its open acquired, restore_entry leaves a descriptor open only when it did not fail, a format\'s free '
+    'releases its format data (not a per-entry compressor: LA.C07.releasedExactlyOnce_false)',
+    'entries handed to write_header carry a pathname (the zip writer dereferences a NULL pathname: noted in '
+    'known_findings.json, outside the call-order quantifier of C07)',
 ]
 TRUSTED = [
-    'memory safety and leak freedom of the real C are observed (ASan/UBSan/LSan, descriptor count), not proved',
-    'formats driven by the engine: reader tar/zip/raw/empty + gzip; writer ustar/pax/cpio/zip(store)/raw/mtree + gzip/b64encode',
+    'memory safety and leak freedom of the real C are observed (ASan/UBSan/LSan in a forked child per case, '
+    '/proc/self/fd count), not proved',
+    'tools/lib/extract.py ApiStates: every archive_check_magic call site with its mask (refuses a function that '
+    'checks one handle kind against two different masks, and any mask expression it cannot evaluate); the '
+    '*_windows.c twins are not compiled here and are left out',
+    'the monitor takes the lower-layer outcome from the implementation\'s own line (first candidate outcome '
+    'that explains it); a line no outcome explains is a correspondence break',
+    'formats driven by the engine: reader tar/zip/raw/empty + gzip; writer ustar/pax/cpio/zip/raw/mtree + '
+    'gzip/b64encode (7zip, xar, iso9660, shar, warc, ar only in the hand-written FATAL-close probe)',
 ]
 MANIFEST = {
     'text': 'Lean theorems over a model of __archive_check_magic and of the state-changing entry points of the five '
@@ -122,7 +132,7 @@ class Api(Engine):
 
     def gen(self, rng, tier):
         os.makedirs(core.OUT, exist_ok=True)
-        n = 500 if tier == 'quick' else 6000
+        n = 500 if tier == 'quick' else 4000
         for kind in KINDS:
             for i in range(n):
                 ops = []
@@ -132,8 +142,8 @@ class Api(Engine):
                     ops.append(rng.choice(alphabet(kind, rng)))
                 yield Case(f'{kind}-rand{i}', ['kind ' + kind] + finish(ops))
         if tier != 'quick':
-            # exhaustive: every sequence of length <= 4 over the (fixed-operand) alphabet of each kind,
-            # once after `new` and once after the kind's canonical prefix
+            # exhaustive: every sequence of length <= 3 over the (fixed-operand) alphabet of each kind after
+            # `new`, and after the kind's canonical prefix (reader: length <= 2 per archive variant)
             for kind in KINDS:
                 al = sorted(set(alphabet(kind, small=True)))
                 pres = [[]]
@@ -143,9 +153,9 @@ class Api(Engine):
                     pres += [['set_format ustar', 'open_cb']]
                 elif kind == 'rdisk':
                     pres += [['open t']]
-                L = 3 if kind in ('read',) else 4 if kind in ('match', 'rdisk') else 3
+                L = 3
                 for pre in pres:
-                    for l in range(1, L + 1):
+                    for l in range(1, (2 if kind == 'read' and pre else L) + 1):
                         for seq in itertools.product(al, repeat=l):
                             yield Case(f'{kind}-enum', ['kind ' + kind] + finish(list(pre) + list(seq)))
 
